@@ -97,8 +97,15 @@ def build():
                 ident = lm.group(1)
                 uses = re.findall(r'from_raw_fd\s*\(\s*%s\s*\)' % re.escape(ident), text[m.end():e])
                 if len(uses) == 1:
+                    rw = re.search(r'from_raw_fd\s*\(\s*%s\s*\)' % re.escape(ident), text[m.end():e])
+                    between = re.sub(r'"(?:[^"\\]|\\.)*"', '""', text[m.end():m.end() + rw.start()])
+                    if re.search(r'\?|\breturn\b|\bbreak\b|\bcontinue\b', between):
+                        # an early exit between taking the descriptor out of its owner and re-wrapping it leaves it unowned
+                        bad_into.append("%s::%s (early exit between into_raw_fd and its re-wrap)" % (f, fn))
+                        rewrapped_ids.add((fn, ident))
+                        continue
                     rewrapped_ids.add((fn, ident))
-                    continue                                 # bound to a name and re-wrapped exactly once later in the same function
+                    continue                                 # bound to a name and re-wrapped exactly once later in the same function, no exit in between
             if (f, fn) not in ALLOW_INTO:
                 bad_into.append("%s::%s" % (f, fn))
         for m in re.finditer(r'\bfrom_raw_fd\s*\(', text):
@@ -132,7 +139,7 @@ def build():
     u.scan(["C09"], "descriptors_enter_only_through_recv_into_iovec", not bad_recv,
            "every recv_with_fds outside Endpoint::recv_into_iovec passes an empty descriptor buffer: raw descriptors are installed only where each is wrapped in a File (unit chunk, [C09:wrap-each-once]); offending: %s" % (bad_recv or "none"))
     u.scan(["C09"], "every_into_raw_fd_is_rewrapped", not bad_into,
-           "every `.into_raw_fd()` in non-test code is re-wrapped by a `from_raw_fd(..)` (directly, or bound to a name that is re-wrapped exactly once in the same function): the descriptor never ends up unowned; offending: %s" % (sorted(set(bad_into)) or "none"))
+           "every `.into_raw_fd()` in non-test code is re-wrapped by a `from_raw_fd(..)` (directly, or bound to a name that is re-wrapped exactly once in the same function with no `?` / return / break / continue in between): the descriptor never ends up unowned; offending: %s" % (sorted(set(bad_into)) or "none"))
     u.scan(["C09"], "raw_descriptor_wraps_are_the_registered_ones", not unreg_wraps,
            "every `from_raw_fd(x)` whose argument is not such a re-wrap is one of the registered sites whose ownership transfer is proved; unregistered: %s" % (sorted(set(unreg_wraps)) or "none"),
            on_fail="undecided")
